@@ -11,6 +11,8 @@ use std::collections::BTreeMap;
 
 pub const W2N: &str = "id: w2n\nsteps:\n  - id: s1\n    branches:\n      - id: b1\n        if: \"true\"\n        steps:\n          - id: s11\n            acts:\n              - uses: acts.core.irq\n                key: a1\n      - id: b2\n        if: \"true\"\n        steps:\n          - id: s21\n            branches:\n              - id: b21\n                if: \"true\"\n                steps:\n                  - id: s211\n                    acts:\n                      - uses: acts.core.irq\n                        key: a2\n  - id: s2\n";
 pub const W5: &str = "id: w5\nsteps:\n  - id: s1\n    acts:\n      - uses: acts.core.irq\n        key: a1\n        outputs:\n          x:\n          y:\n  - id: s2\n    acts:\n      - uses: acts.core.irq\n        key: a2\n";
+/// branches without steps (a taken one, a needs branch and an else branch) before a step with an open act
+pub const W8: &str = "id: w8\nsteps:\n  - id: s1\n    branches:\n      - id: b0\n        else: true\n      - id: b1\n        if: \"true\"\n        steps:\n          - id: s11\n            acts:\n              - uses: acts.core.irq\n                key: a1\n      - id: b2\n        needs: [b1]\n      - id: b3\n        if: \"true\"\n  - id: s2\n    acts:\n      - uses: acts.core.irq\n        key: a2\n";
 /// rework loop: the guarded branch increments `a` and jumps back to the first step
 pub const WJ: &str = "id: wj\ninputs:\n  a: 0\nsteps:\n  - id: s1\n    acts:\n      - uses: acts.core.irq\n        key: a1\n  - id: s2\n    branches:\n      - id: b1\n        if: a < 1\n        steps:\n          - id: s21\n            next: s1\n            acts:\n              - uses: acts.transform.set\n                params:\n                  a: '{{ a + 1 }}'\n      - id: b2\n        else: true\n        steps:\n          - id: s22\n  - id: s3\n";
 /// two irq acts in one branch, one in the sibling
@@ -115,7 +117,9 @@ fn scenarios_of(prop: &str, tier: Tier) -> Vec<HScn> {
         }
         "C03" => {
             // (workflow, keep_processes, deviation bound in the quick tier)
-            let set: [(&str, bool, usize); 11] = [
+            let set: [(&str, bool, usize); 13] = [
+                (W8, false, 1),
+                (W8, true, 0),
                 (W2, false, 1),
                 (W4, false, 1),
                 (W2N, false, 0),
